@@ -45,12 +45,12 @@ def run(ctx: Ctx, rep: Report) -> None:
     rep.rule("C01-R3", "every fetched batch is regrouped, filtered and yielded; the loop continues while a root is unfinished", floor=5)
     rep.rule("C01-R4", "positional regrouping: stride, offsets and keys agree; remap to user roots by containment", floor=4)
     rep.rule("C01-R5", "OID lists given to a truncating fetcher are ascending", floor=1)
-    rep.rule("C01-R6", "a root continues from its last received OID and only while that OID is inside the root", floor=2)
+    rep.rule("C01-R6", "a root continues from its last received OID and only while that OID is inside the root", floor=1)
     rep.rule("C01-R7", "endOfMibView markers are never delivered as instances", floor=2)
     rep.rule("C01-R8", "order within a root is preserved between fetch and yield", floor=1)
     rep.rule("C01-R9", "an exception a fetcher raises itself ends the walk the same way at every fetch site (first request and continuation requests)", floor=2)
     rep.rule("C01-R12", "the pythonic walk methods hand the caller's roots and options to the raw walk one-to-one (shared with C15-R4)", floor=2)
-    rep.rule("C01-R11", "the fetchers' progress guard refuses only non-advancing OIDs: it pairs requested[i] with retrieved[i] and passes requested < retrieved (a conformant agent is never refused; shared with C03-R2/R3)", floor=4)
+    rep.rule("C01-R11", "the fetchers' progress guard refuses only non-advancing OIDs: it pairs requested[i] with retrieved[i] and passes requested < retrieved (a conformant agent is never refused; shared with C03-R2/R3)", floor=2)
     rep.rule("C01-R10", "the GETBULK-based walk is the same loop: delegation, faithful fetcher results, suffix cut at the marker (shared with C02-R0/R1/R4)", floor=3)
     rep.assumptions += [
         "the agent is standards conformant (GETNEXT/GETBULK return lexicographic successors; endOfMibView at the end of the view)",
@@ -181,6 +181,16 @@ def _leaves_early(stmt: ast.stmt) -> bool:
 
 # ---------------------------------------------------------------- R1 / R2
 def check_filter(ctx: Ctx, rep: Report, wm: WalkModel, r1: str = "C01-R1", r2: str = "C01-R2") -> None:
+    from .walkeval import eval_filter
+
+    if eval_filter(ctx, rep, wm.dedup, r1, r2, "C01-R8" if r1 == "C01-R1" else r2):
+        wm.filter_evaluated = True  # type: ignore[attr-defined]
+        check_filter_call_sites(ctx, rep, wm, r1, r2)
+        return
+    check_filter_structurally(ctx, rep, wm, r1, r2)
+
+
+def check_filter_structurally(ctx: Ctx, rep: Report, wm: WalkModel, r1: str = "C01-R1", r2: str = "C01-R2") -> None:
     g = wm.dedup
     defs = ctx.defs(g)
     cfg = ctx.cfg(g)
@@ -273,7 +283,16 @@ def check_filter(ctx: Ctx, rep: Report, wm: WalkModel, r1: str = "C01-R1", r2: s
         f"`{type(early[0]).__name__.lower()}` at line {early[0].lineno} leaves the loop: later bindings of the batch are dropped although the walk continues after them" if early else "",
         key=f"{g.key}|filter-leaves-loop",
     )
-    # call sites: bindings of the roots and the seen-set parameter
+    check_filter_call_sites(ctx, rep, wm, r1, r2, roots_param, seen_param)
+
+
+def check_filter_call_sites(ctx: Ctx, rep: Report, wm: WalkModel, r1: str, r2: str, roots_param: Optional[str] = None, seen_param: Optional[str] = None) -> None:
+    """How the walk uses its filter: the walk's own roots, one seen-set for all rounds that only grows."""
+    g = wm.dedup
+    if roots_param is None and g.params:
+        roots_param = g.params[0]  # roles by position: (roots, regrouped batch, seen-set) - the order the evaluation used
+    if seen_param is None and len(g.params) > 2:
+        seen_param = g.params[2]
     wdefs = ctx.defs(wm.walk)
     seen_names = set()
     for call in wm.dedup_calls:
@@ -710,7 +729,13 @@ def check_unfinished_structurally(ctx: Ctx, rep: Report, wm: WalkModel) -> None:
 
 # ---------------------------------------------------------------- R7
 def check_markers(ctx: Ctx, rep: Report, wm: WalkModel) -> None:
+    from .fetcheval import emit
+
+    decided = emit(ctx, rep, "C01-R7", ["multigetnext", "bulk_fetcher"])
     for f in wm.fetchers():
+        if ("multigetnext" in decided and f.name == "multigetnext") or ("bulk_fetcher" in decided and f.key == wm.bulk_fetcher.key):
+            rep.ok("C01-R7", f.site(), f"{f.qualname}: endOfMibView bindings are never part of the result (the result is the prefix before the first marker)", "decided by the evaluated contract")
+            continue
         cuts = wm.truncation(f)
         site = f.site()
         if not cuts:
@@ -733,6 +758,13 @@ def check_markers(ctx: Ctx, rep: Report, wm: WalkModel) -> None:
 # ---------------------------------------------------------------- R8
 def check_order(ctx: Ctx, rep: Report, wm: WalkModel) -> None:
     g = wm.dedup
+    if getattr(wm, "filter_evaluated", False):
+        from .fetcheval import fetcher_eval
+
+        fe = fetcher_eval(ctx)
+        if fe.results.get("multigetnext") is not None and fe.results.get("bulk_fetcher") is not None:  # type: ignore[attr-defined]
+            rep.ok("C01-R8", g.site(), "filter, regrouping and fetchers keep the order of the response", "decided by their evaluated contracts (results are compared position by position)")
+            return
     loops = [n for n in own_nodes(g.node) if isinstance(n, ast.For)]
     inner = [l for l in loops if any(isinstance(a, ast.For) for a in ancestors(l))]
     ok = False
